@@ -263,6 +263,7 @@ Definition evaluate_function (name : text) (args : option (list value)) : M (opt
 
 (* ---------- variables, observers ---------- *)
 Definition set_variable (name : text) (v : value) : M unit :=
+  let* _ := when (sw_guard_setvar sw) if_async_we_cant in
   let* s := get_state in
   let* defs := m_defs in
   let* (notify, s') := lift (vs_host_set I s name v) in
@@ -330,11 +331,14 @@ Definition switch_flow (name : text) : M unit :=
 
 Definition switch_to_default_flow_internal (s : sstate) : sstate :=
   match ss_named s with Some _ => switch_flow_internal DEFAULT_FLOW s | None => s end.
-Definition switch_to_default_flow : M unit := mod_state switch_to_default_flow_internal.
+Definition switch_to_default_flow : M unit :=
+  let* a := gets w_async in
+  if sw_guard_switch_default sw && a then ret tt else mod_state switch_to_default_flow_internal.
 
 (* remove_flow_internal: `self.named_flows.as_mut().unwrap()`.  [checked] is the
    regenerated fact that the code no longer unwraps a missing map. *)
 Definition remove_flow (name : text) : M unit :=
+  let* _ := when (sw_guard_remove_flow sw) if_async_we_cant in
   if text_eqb name DEFAULT_FLOW then fail BadArgument "Cannot destroy default flow" else
   let* _ := mod_state (fun s => if text_eqb (fl_name (ss_flow s)) name
                                 then switch_to_default_flow_internal s else s) in
